@@ -560,19 +560,28 @@ func (c *Ctx) nextMessageParams() {
 		okv := len(noneFalse) == 1
 		nreads := 0
 		var firstBad ssa.Instruction
-		allInstrs(f, func(b *ssa.BasicBlock, in ssa.Instruction) {
-			var fa ssa.Value
-			switch x := in.(type) {
-			case *ssa.FieldAddr:
-				fa = x
-			case *ssa.Field:
-				fa = x
-			default:
-				return
-			}
-			tn, n, ok := fieldOf(fa)
-			if !ok || tn != "tlb.Account" || n != "Account" {
-				return
+		// what must wait for the tag test is every DECISION taken on the content of the Account alternative (a
+		// branch whose condition derives from a.Account...); merely loading the field of the struct value
+		// earlier, into a temporary that is consulted later, changes nothing
+		fromAccount := func(v ssa.Value) bool {
+			return derivesFrom(v, func(x ssa.Value) bool {
+				var fa ssa.Value
+				switch y := x.(type) {
+				case *ssa.FieldAddr:
+					fa = y
+				case *ssa.Field:
+					fa = y
+				default:
+					return false
+				}
+				tn, n, ok := fieldOf(fa)
+				return ok && tn == "tlb.Account" && n == "Account"
+			}, false)
+		}
+		for _, b := range f.Blocks {
+			iff := lastIf(b)
+			if iff == nil || !fromAccount(iff.Cond) {
+				continue
 			}
 			nreads++
 			dom := false
@@ -584,10 +593,10 @@ func (c *Ctx) nextMessageParams() {
 			if !dom {
 				okv = false
 				if firstBad == nil {
-					firstBad = in
+					firstBad = iff
 				}
 			}
-		})
+		}
 		pos := f.Pos()
 		if firstBad != nil {
 			pos = firstBad.Pos()
